@@ -59,10 +59,14 @@ def build_inputs(rng, tmp):
         srecs += q
     sam = W("a.sam", samgen.render_sam("REF", L, srecs))
     r2, qs, ts = udgen.make_inputs(rng, w=24, nq=4, nt=30)
+    r3, qs3, ts3 = udgen.make_inputs_crowded(rng, {"up": 3, "down": 22, "side": 16, "same": 2})
+    udref3 = W("udref3.fasta", gen.layout(rng, [("ref", r3)], "plain"))
+    udq3 = W("udq3.fasta", gen.layout(rng, qs3, "plain"))
+    udt3 = W("udt3.fasta", gen.layout(rng, ts3, "plain"))
     udref = W("udref.fasta", gen.layout(rng, [("ref", r2)], "plain"))
     udq = W("udq.fasta", gen.layout(rng, qs, "plain"))
     udt = W("udt.fasta", gen.layout(rng, ts, "plain"))
-    return dict(msa=msa, msa2=msa2, msa3=msa3, gff=gff, gb=gb, ref=ref, aln=aln, sam=sam, udref=udref, udq=udq, udt=udt, tmp=tmp)
+    return dict(udref3=udref3, udq3=udq3, udt3=udt3, msa=msa, msa2=msa2, msa3=msa3, gff=gff, gb=gb, ref=ref, aln=aln, sam=sam, udref=udref, udq=udq, udt=udt, tmp=tmp)
 
 
 def commands(F, binp):
@@ -85,6 +89,8 @@ def commands(F, binp):
         "updown list": ["updown", "list", "-r", F["udref"], "-q", F["udt"]],
         "updown topranking": ["updown", "topranking", "-r", F["udref"], "-q", F["udq"], "-t", F["udt"], "--size-total", "12"],
         "updown topranking push": ["updown", "topranking", "-r", F["udref"], "-q", F["udq"], "-t", F["udt"], "--dist-push", "2", "--table"],
+        "updown topranking push, long bins": ["updown", "topranking", "-r", F["udref3"], "-q", F["udq3"], "-t", F["udt3"], "--dist-push", "3"],
+        "updown topranking sizes, long bins": ["updown", "topranking", "-r", F["udref3"], "-q", F["udq3"], "-t", F["udt3"], "--size-total", "40", "--table"],
     }
     return cmds
 
